@@ -434,6 +434,11 @@ def x7_shims(text, log):
         return "vx_decode_plain(%s, %s)" % (m.group(1), m.group(2)) + _nl(m.group(0))
     text = re.sub(r"\b(self\.encoding\(\))\s*\.decode_without_bom_handling\(([a-z_][a-z0-9_]*)\)\s*\.0\s*\.into_owned\(\)", decplain, text)
 
+    def erreof(m):
+        log.add("X7:vx_err_is_eof")
+        return "vx_err_is_eof(&%s)" % m.group(1)
+    text = re.sub(r"\b([a-z_][a-z0-9_]*)\.kind\(\) == io::ErrorKind::UnexpectedEof", erreof, text)
+
     def bsearch(m):
         log.add("X7:vx_bsearch_key0")
         return "vx_bsearch_key0(%s, %s)" % (m.group(1), m.group(2))
